@@ -7,6 +7,7 @@ package main
 // The Lean model Model/Endpoint.lean is stated over these constants.
 
 import (
+	"fmt"
 	"go/ast"
 	"go/token"
 	"strconv"
@@ -422,5 +423,351 @@ func init() {
 				anchorLost("convert.go: Tars2endpoint: `proto := \"tcp\"; if end.Istcp == UDP { proto = \"udp\" }` not found")
 			}
 		}
+	})
+}
+
+// ---------------------------------------------------------------------------------------------
+// Key sites of the endpoint manager (C18, "the same endpoint obtains the same cache key whether
+// it comes from an address string or from the registry" at the level of the tables that are
+// indexed by that key).  In tars/endpointmanager.go and tars/application.go every expression used
+// as a key of one of the manager's sync.Map tables (Load/Store/Delete/LoadOrStore/LoadAndDelete)
+// or compared with an Endpoint's `.Key` must be canonical: the `.Key` (or `.String()`) of an
+// Endpoint value that was produced by endpoint.Parse / endpoint.Tars2endpoint, or a key that came
+// out of such a table (first parameter of a Range callback).  Positively non-canonical: a key of a
+// locally built Endpoint (composite literal), fmt.Sprintf / strings.Join / `+` concatenation, a
+// helper (this package or util/endpoint, other than Parse/Tars2endpoint) that returns one of these.
+// Result: epKeySitesCanonical (1/0), required to be 1 by theorem C18_key_sites_current_tree, and
+// epKeySites (how many sites were recognised).
+
+type keyCtx struct {
+	f      *file
+	fd     *ast.FuncDecl
+	ranges map[string]bool // names bound as the key parameter of a Range callback on a key table
+	depth  int
+}
+
+var keyWhy []string
+
+func keyBad(c *keyCtx, e ast.Expr, why string) bool {
+	keyWhy = append(keyWhy, c.f.path+": "+declName(c.fd)+": `"+exprStr(c.f.fset, e)+"`: "+why)
+	return false
+}
+
+// defsOf returns the right-hand sides assigned to the identifier name inside fd (`:=`, `=`, var).
+func defsOf(fd *ast.FuncDecl, name string) []ast.Expr {
+	var out []ast.Expr
+	ast.Inspect(fd, func(n ast.Node) bool {
+		switch x := n.(type) {
+		case *ast.AssignStmt:
+			if len(x.Lhs) == len(x.Rhs) {
+				for i, l := range x.Lhs {
+					if id, ok := l.(*ast.Ident); ok && id.Name == name {
+						out = append(out, x.Rhs[i])
+					}
+				}
+			}
+		case *ast.ValueSpec:
+			for i, id := range x.Names {
+				if id.Name == name && i < len(x.Values) {
+					out = append(out, x.Values[i])
+				}
+			}
+		}
+		return true
+	})
+	return out
+}
+
+func isParam(fd *ast.FuncDecl, name string) bool {
+	if fd.Type.Params == nil {
+		return false
+	}
+	for _, p := range fd.Type.Params.List {
+		for _, id := range p.Names {
+			if id.Name == name {
+				return true
+			}
+		}
+	}
+	return false
+}
+
+// helperOf resolves a call to a plain function of the same package, or to endpoint.<F> of
+// tars/util/endpoint; nil when it is something else.
+func helperOf(c *keyCtx, call *ast.CallExpr) (*file, *ast.FuncDecl) {
+	switch fn := call.Fun.(type) {
+	case *ast.Ident:
+		for _, d := range c.f.funcsOfPkg()[fn.Name] {
+			if d.Recv == nil {
+				return c.f, d
+			}
+		}
+	case *ast.SelectorExpr:
+		if id, ok := fn.X.(*ast.Ident); ok && id.Name == "endpoint" {
+			ef := parse("tars/util/endpoint/endpoint.go")
+			if ef != nil {
+				for _, d := range ef.funcsOfPkg()[fn.Sel.Name] {
+					if d.Recv == nil {
+						return ef, d
+					}
+				}
+			}
+		}
+	}
+	return nil, nil
+}
+
+func returnsOf(fd *ast.FuncDecl) []ast.Expr {
+	var out []ast.Expr
+	ast.Inspect(fd.Body, func(n ast.Node) bool {
+		if _, ok := n.(*ast.FuncLit); ok {
+			return false
+		}
+		if r, ok := n.(*ast.ReturnStmt); ok && len(r.Results) >= 1 {
+			out = append(out, r.Results[0])
+		}
+		return true
+	})
+	return out
+}
+
+func isCanonCtor(call *ast.CallExpr) bool {
+	if sel, ok := call.Fun.(*ast.SelectorExpr); ok {
+		if id, ok := sel.X.(*ast.Ident); ok && id.Name == "endpoint" && (sel.Sel.Name == "Parse" || sel.Sel.Name == "Tars2endpoint") {
+			return true
+		}
+	}
+	return false
+}
+
+// canonEp: is the expression an Endpoint whose Key was made by Parse / Tars2endpoint?
+func canonEp(c *keyCtx, e ast.Expr) bool {
+	if c.depth > 6 {
+		return true
+	}
+	switch x := e.(type) {
+	case *ast.ParenExpr:
+		return canonEp(c, x.X)
+	case *ast.StarExpr:
+		return canonEp(c, x.X)
+	case *ast.UnaryExpr:
+		return canonEp(c, x.X)
+	case *ast.CompositeLit:
+		return keyBad(c, e, "key of an Endpoint built on the spot, not by endpoint.Parse / endpoint.Tars2endpoint")
+	case *ast.CallExpr:
+		if isCanonCtor(x) {
+			return true
+		}
+		if hf, hd := helperOf(c, x); hd != nil && hd.Body != nil {
+			hc := &keyCtx{f: hf, fd: hd, ranges: map[string]bool{}, depth: c.depth + 1}
+			for _, r := range returnsOf(hd) {
+				if !canonEp(hc, r) {
+					return keyBad(c, e, "helper "+hd.Name.Name+" returns such an Endpoint")
+				}
+			}
+		}
+		return true
+	case *ast.Ident:
+		if isParam(c.fd, x.Name) {
+			return true
+		}
+		nc := &keyCtx{f: c.f, fd: c.fd, ranges: c.ranges, depth: c.depth + 1}
+		for _, d := range defsOf(c.fd, x.Name) {
+			if !canonEp(nc, d) {
+				return false
+			}
+		}
+		return true
+	}
+	return true
+}
+
+// canonKey: is the expression a canonical cache key?
+func canonKey(c *keyCtx, e ast.Expr) bool {
+	if c.depth > 6 {
+		return true
+	}
+	switch x := e.(type) {
+	case *ast.ParenExpr:
+		return canonKey(c, x.X)
+	case *ast.TypeAssertExpr:
+		return canonKey(c, x.X)
+	case *ast.BasicLit:
+		return true // comparison with a literal (emptiness test); never a table key in practice
+	case *ast.SelectorExpr:
+		if x.Sel.Name == "Key" {
+			return canonEp(c, x.X)
+		}
+		return true
+	case *ast.BinaryExpr:
+		if x.Op == token.ADD {
+			return keyBad(c, e, "key built by string concatenation")
+		}
+		return true
+	case *ast.CallExpr:
+		if sel, ok := x.Fun.(*ast.SelectorExpr); ok {
+			if sel.Sel.Name == "String" && len(x.Args) == 0 {
+				return canonEp(c, sel.X)
+			}
+			if id, ok := sel.X.(*ast.Ident); ok {
+				if (id.Name == "fmt" && strings.HasPrefix(sel.Sel.Name, "Sprint")) || (id.Name == "strings" && sel.Sel.Name == "Join") {
+					return keyBad(c, e, "key formatted on the spot")
+				}
+			}
+		}
+		if hf, hd := helperOf(c, x); hd != nil && hd.Body != nil && !isCanonCtor(x) {
+			hc := &keyCtx{f: hf, fd: hd, ranges: map[string]bool{}, depth: c.depth + 1}
+			for _, r := range returnsOf(hd) {
+				if !canonKey(hc, r) {
+					return keyBad(c, e, "helper "+hd.Name.Name+" builds the key itself instead of taking Endpoint.Key")
+				}
+			}
+			return true
+		}
+		if id, ok := x.Fun.(*ast.Ident); ok && id.Name == "string" && len(x.Args) == 1 {
+			return canonKey(c, x.Args[0])
+		}
+		return true
+	case *ast.Ident:
+		if c.ranges[x.Name] || isParam(c.fd, x.Name) {
+			return true
+		}
+		nc := &keyCtx{f: c.f, fd: c.fd, ranges: c.ranges, depth: c.depth + 1}
+		for _, d := range defsOf(c.fd, x.Name) {
+			if !canonKey(nc, d) {
+				return false
+			}
+		}
+		return true
+	}
+	return true
+}
+
+func lastName(e ast.Expr) string {
+	switch x := e.(type) {
+	case *ast.Ident:
+		return x.Name
+	case *ast.SelectorExpr:
+		return x.Sel.Name
+	case *ast.ParenExpr:
+		return lastName(x.X)
+	case *ast.StarExpr:
+		return lastName(x.X)
+	}
+	return ""
+}
+
+func isKeySel(e ast.Expr) bool {
+	s, ok := e.(*ast.SelectorExpr)
+	if !ok || s.Sel.Name != "Key" {
+		return false
+	}
+	// svrCfg.Key (the TLS key file of the server configuration) is not an endpoint key
+	return !strings.Contains(strings.ToLower(lastName(s.X)), "cfg")
+}
+
+func init() {
+	mirrored["tars/endpointmanager.go"] = append(mirrored["tars/endpointmanager.go"],
+		"endpointManager.checkStatus", "endpointManager.SelectAdapterProxy", "endpointManager.refreshEndpoints", "endpointManager.addAliveEp")
+	extras = append(extras, func(add func(string, int64, bool)) {
+		em := parse("tars/endpointmanager.go")
+		app := parse("tars/application.go")
+		if em == nil {
+			return
+		}
+		// the key tables: members of struct endpointManager of type *sync.Map
+		tables := map[string]bool{}
+		ast.Inspect(em.f, func(n ast.Node) bool {
+			ts, ok := n.(*ast.TypeSpec)
+			if !ok || ts.Name.Name != "endpointManager" {
+				return true
+			}
+			if st, ok := ts.Type.(*ast.StructType); ok {
+				for _, fl := range st.Fields.List {
+					t := exprStr(em.fset, fl.Type)
+					if t == "*sync.Map" || t == "sync.Map" {
+						for _, id := range fl.Names {
+							tables[id.Name] = true
+						}
+					}
+				}
+			}
+			return false
+		})
+		if len(tables) == 0 {
+			anchorLost("endpointmanager.go: struct endpointManager has no sync.Map members (the key tables epList / checkAdapterList)")
+			return
+		}
+		keyWhy = nil
+		sites := 0
+		ok := true
+		for _, f := range []*file{em, app} {
+			if f == nil {
+				continue
+			}
+			for _, d := range f.f.Decls {
+				fd, isFn := d.(*ast.FuncDecl)
+				if !isFn || fd.Body == nil {
+					continue
+				}
+				c := &keyCtx{f: f, fd: fd, ranges: map[string]bool{}}
+				// keys handed out by the tables themselves
+				ast.Inspect(fd.Body, func(n ast.Node) bool {
+					call, isCall := n.(*ast.CallExpr)
+					if !isCall {
+						return true
+					}
+					sel, isSel := call.Fun.(*ast.SelectorExpr)
+					if isSel && sel.Sel.Name == "Range" && tables[lastName(sel.X)] && len(call.Args) == 1 {
+						if fl, isLit := call.Args[0].(*ast.FuncLit); isLit && fl.Type.Params != nil && len(fl.Type.Params.List) > 0 && len(fl.Type.Params.List[0].Names) > 0 {
+							c.ranges[fl.Type.Params.List[0].Names[0].Name] = true
+						}
+					}
+					return true
+				})
+				ast.Inspect(fd.Body, func(n ast.Node) bool {
+					switch x := n.(type) {
+					case *ast.CallExpr:
+						sel, isSel := x.Fun.(*ast.SelectorExpr)
+						if !isSel || !tables[lastName(sel.X)] || len(x.Args) == 0 {
+							return true
+						}
+						switch sel.Sel.Name {
+						case "Load", "Store", "Delete", "LoadOrStore", "LoadAndDelete", "Swap", "CompareAndSwap", "CompareAndDelete":
+							sites++
+							if !canonKey(c, x.Args[0]) {
+								ok = false
+							}
+						}
+					case *ast.BinaryExpr:
+						if x.Op != token.EQL && x.Op != token.NEQ {
+							return true
+						}
+						lk := isKeySel(x.X) || (func() bool { id, isID := x.X.(*ast.Ident); return isID && c.ranges[id.Name] })()
+						rk := isKeySel(x.Y) || (func() bool { id, isID := x.Y.(*ast.Ident); return isID && c.ranges[id.Name] })()
+						if lk || rk {
+							sites++
+							if !canonKey(c, x.X) || !canonKey(c, x.Y) {
+								ok = false
+							}
+						}
+					}
+					return true
+				})
+			}
+		}
+		if sites < 4 {
+			anchorLost("endpointmanager.go: only %d uses of the key tables %v / comparisons with Endpoint.Key found (the manager's key sites)", sites, tables)
+			return
+		}
+		for _, w := range keyWhy {
+			fmt.Println("KEYSITE-NONCANONICAL:", w)
+		}
+		v := int64(1)
+		if !ok {
+			v = 0
+		}
+		add("epKeySites", int64(sites), true)
+		add("epKeySitesCanonical", v, true)
 	})
 }
